@@ -1,5 +1,6 @@
 pub mod alias;
 pub mod descs;
+pub mod encode;
 pub mod gather;
 pub mod hist;
 pub mod registry;
